@@ -53,7 +53,7 @@ func TestStoreSpecial(t *testing.T) {
 					t.Fatal(err)
 				}
 				e.Log(Event{"ev": "newstore", "declared": dedupe(declared), "allowlookup": false, "expiry": 0, "auto": false, "bad": false,
-					"fileclient": true, "deadline": 0, "cache": map[string]any{"kind": "none", "doc": []docEntry{}, "wfail": false}})
+					"fileclient": true, "structs": []string{}, "deadline": 0, "cache": map[string]any{"kind": "none", "doc": []docEntry{}, "wfail": false}})
 				t0 := time.Now()
 				st, err := setec.NewStore(context.Background(), setec.StoreConfig{Client: fc, Secrets: declared, PollInterval: -1, Logf: func(string, ...any) {}})
 				if d := time.Since(t0); d != 0 {
@@ -77,7 +77,7 @@ func TestStoreSpecial(t *testing.T) {
 			for _, ev := range evs {
 				w.Put(ev)
 			}
-			w.Put(Event{"ev": "end", "t": 0})
+			w.Put(Event{"ev": "end", "t": 0, "metrics": map[string]any{"known": "f", "polls": 0, "pollerrs": 0, "fetches": 0}})
 		}
 	}
 	w.Close()
